@@ -8,17 +8,27 @@ with the REAL `get_piola_transform`, `get_edge_lengths`, `get_global_points`, `l
 stub, the real `default_scalar_regular_kernel` / `default_scalar_singular_kernel` on the element-wise constant and
 element-wise linear spaces (V0 / V1 of the decomposition).
 
-* `numpy.linalg.norm` (only used by `get_edge_lengths`) is replaced, while tracing, through a proxy for the module
-  global `_np` of numba_kernels: the norm of a vector whose components are `V_a_c - V_b_c` (c = 0,1,2) is the atom
-  `el_a_b` (registered in `EDGE_ATOMS` against sqrt of the sum of squares, which is what the numeric validation uses);
-  any other argument is traced as `sqrt(sum of squares)`.  So an edge length is named by the ordered vertex pair the
-  source subtracts: a wrong vertex pair or a wrong edge index is a different atom.
+* While tracing, the module global `_np` of numba_kernels is a proxy (`tracing`):
+  - `linalg.norm` (only used by `get_edge_lengths`): the norm of a vector whose components are `V_a_c - V_b_c` (c = 0,1,2)
+    is the atom `el_a_b` (`EDGE_ATOMS`; the numeric validation gives it the value sqrt of the sum of squares).  An edge
+    length is thus named by the ORDERED vertex pair the source subtracts: a wrong pair or a wrong edge index is a different
+    atom.  Any other argument is traced as `sqrt(sum of squares)`.
+  - `sqrt` of `(x0-y0)² + (x1-y1)² + (x2-y2)²` for two REGISTERED points x, y is the atom `dst_x_y` (`DIST_ATOMS`), anything
+    else is the uninterpreted function `sqrt`.
+  A trace that still contains an uninterpreted function is rejected (GenError): the theorems would not mean anything.
 * The Maxwell assemblers call the kernel evaluator with `None` normals; the stub `Gstub` returns the complex atom
   `Gcre_x_y + i Gcim_x_y` (x, y: ids of the registered points) and ignores normals, so the scalar assemblers traced
-  with the same stub are directly comparable.
-* The wavenumber is `kp_0 + i kp_1`.  In this source tree all four Maxwell kernels receive the SCALAR Helmholtz kernel
-  and build the gradient themselves as `G * (ik d - 1) / d^2 * (x - y)`, d = sqrt(|x-y|^2) (traced as `sqrt` applied
-  to the sum of squares; `sqrt` is an uninterpreted function in the Lean statements).
+  with the same stub are directly comparable.  In this source tree all Maxwell kernels receive the SCALAR Helmholtz
+  kernel and build the gradient themselves as `G * (ik d - 1) / d^2 * (x - y)`: there is no gradient-valued evaluator.
+* The wavenumber is `kp_0 + i kp_1`.
+
+Lean output (see `generate`):
+  Gen/AsmTracesMaxwell<Pool>.lean   traced entries (re / im parts) with common-subexpression definitions; the traced values
+                                    of `get_piola_transform` / `local2global` get their own definitions `pio* / pt*` and a
+                                    lemma (rfl) identifying them with `Mx.piola` / `Mx.pt` of Lemmas/Maxwell.lean
+  Gen/AsmMatchMaxwell<Group>N.lean  theorems between pairs `CP K` (Lemmas/CPair.lean); proof: `simp only` (unfold the traced
+                                    definitions, fold piola / pt, split into components) then `mx_finish`
+                                    (Lemmas/MaxwellTactic.lean: `generalize_atoms [piola, pt]; ring` per component)
 """
 import contextlib
 import os
@@ -278,17 +288,6 @@ def term_size(t):
         return 1 + term_size(t[1])
     return 1 + term_size(t[2])
 
-
-def _main_sizes():
-    env = ag.Env()
-    tr, sp = trace_all(env)
-    for k, a in tr.items():
-        sizes = [term_size(p) for x in a.ravel() for p in st.parts(x)]
-        print(k, a.shape, "max term size", max(sizes), "total", sum(sizes))
-    print(sorted(EDGE_ATOMS))
-
-
-# ------------------------------------------------------------------------------------------------ Lean emission
 
 CP_SIMP = ("CP.ext_iff', CP.zero_re, CP.zero_im, CP.ofK_re, CP.ofK_im, CP.add_re, CP.add_im, CP.sub_re, CP.sub_im, CP.neg_re, "
            "CP.neg_im, CP.mul_re, CP.mul_im, CP.div_re, CP.div_im, CP.divK_re, CP.divK_im, CP.ik_re, CP.ik_im, CP.sum3, CP.sum2")
